@@ -292,15 +292,16 @@ class Counter(HashTable):
         flat_indices = view.ravel_multi_index((rows, offsets))
         if isinstance(self._values, Number):
             if self._values == 0:
+                # (RaggedArray ignores `dtype` for data that is already an array, so convert here)
                 self._values = RaggedArray(
-                    np.bincount(flat_indices, minlength=self._keys.size),
+                    np.bincount(flat_indices, minlength=self._keys.size).astype(self._value_dtype),
                     self._keys._shape,
                     dtype=self._value_dtype,
                     safe_mode=False,
                 )
             else:
                 self._values = RaggedArray(
-                    self._values + np.bincount(flat_indices, minlength=self._keys.size),
+                    (self._values + np.bincount(flat_indices, minlength=self._keys.size)).astype(self._value_dtype),
                     self._keys._shape,
                     dtype=self._value_dtype,
                 )
